@@ -48,7 +48,13 @@ def tokenize(text):
 
 def find_fn(text, name, nth=0):
     """Source text of the nth `fn name` item (signature + body), by brace matching."""
-    ms = [m for m in re.finditer(r"\bfn\s+%s\s*[<(]" % re.escape(name), text)]
+    base = 0
+    if isinstance(nth, str):               # an `impl` header regex: the first `fn name` after it
+        mi = re.search(nth, text)
+        if not mi:
+            raise Unsupported("impl header %r not found" % nth)
+        base, nth = mi.start(), 0
+    ms = [m for m in re.finditer(r"\bfn\s+%s\s*[<(]" % re.escape(name), text) if m.start() >= base]
     if len(ms) <= nth:
         raise Unsupported("fn %s (occurrence %d) not found" % (name, nth))
     start = ms[nth].start()
@@ -448,7 +454,7 @@ class Emitter:
         self.fn_names = fn_names          # rust fn name -> coq name, for this group (and earlier groups)
         self.fresh = 0
         self.types = {}
-        self.hinted = set()
+        self.hints = {}
         self.notes = []
 
     def gensym(self, base="q"):
@@ -514,7 +520,9 @@ class Emitter:
             else:
                 for x in p[2]:
                     self.bind_types(x)
-        elif p[0] == "pvar" and p[1] in self.types and p[1] not in self.hinted:
+        elif p[0] == "pvar" and p[1] in self.hints:
+            self.types[p[1]] = self.hints[p[1]]
+        elif p[0] == "pvar" and p[1] in self.types:
             del self.types[p[1]]
 
     def recv_type(self, e):
@@ -724,7 +732,7 @@ class Emitter:
 
 
 COQ_TYPES = {"i32": "Z", "u32": "Z", "i64": "Z", "u64": "Z", "usize": "Z", "isize": "Z", "InlineInt": "Z", "BigInt": "Z",
-             "bool": "bool", "Value": "value", "StarlarkIntRef": "rep", "StarlarkInt": "rep", "StarlarkHashValue": "Z", "Range": "range"}
+             "bool": "bool", "Value": "value", "StarlarkIntRef": "rep", "StarlarkInt": "rep", "StarlarkHashValue": "Z", "Range": "range", "StarlarkBigInt": "Z"}
 
 
 def coq_type(t, cfg):
@@ -762,14 +770,17 @@ def translate_group(src_of, group):
             em.types["self"] = cfg["self_type"]
             em.types["self_"] = cfg["self_type"]
         em.types.update(hints)
-        em.hinted = set(hints)
+        em.hints = dict(hints)
         btxt = em.tr(body, ID)
         ptxt = " ".join(coq_param(san(p), em.types.get(p, t), cfg) for p, t in params) or "(_ : unit)"
         lines.append("(* %s:%d  fn %s(%s) -> %s *)" % (group["file"], line, rust_name,
                                                        ", ".join("%s: %s" % pt for pt in params), ret))
         lines.append("Definition %s %s :=\n  %s." % (coq_name, ptxt, btxt))
         lines.append("")
-        fn_names[rust_name] = coq_name
+        fn_names.setdefault(rust_name, coq_name)
+        for extra in group.get("postlude", {}).get(coq_name, []):
+            lines.append(extra)
+            lines.append("")
         import hashlib
         items.append((coq_name, group["file"], line, hashlib.sha256(text.encode()).hexdigest()[:12]))
     return "\n".join(lines), items
